@@ -679,6 +679,9 @@ void QXmppOutgoingClient::handleStream(const QDomElement &streamElement)
                 disconnectFromHost();
                 return;
             }
+            // a pre-1.0 stream advertises no features: forget what an earlier connection offered
+            // (otherwise e.g. the client state is sent to a server without XEP-0352 support)
+            d->csiManager.onStreamFeatures(QXmppStreamFeatures());
             startNonSaslAuth();
         }
     }
